@@ -251,10 +251,12 @@ func ToV3Parameter(components *openapi3.Components, parameter *openapi2.Paramete
 		if typ.Is("file") {
 			format, typ = "binary", &openapi3.Types{"string"}
 		}
-		if parameter.Extensions == nil {
-			parameter.Extensions = make(map[string]any, 1)
+		// the marker goes into the v3 schema only: the OpenAPI 2 document is the caller's
+		extensions := make(map[string]any, len(parameter.Extensions)+1)
+		for k, v := range parameter.Extensions {
+			extensions[k] = v
 		}
-		parameter.Extensions["x-formData-name"] = parameter.Name
+		extensions["x-formData-name"] = parameter.Name
 		var required []string
 		if parameter.Required {
 			required = []string{parameter.Name}
@@ -262,7 +264,7 @@ func ToV3Parameter(components *openapi3.Components, parameter *openapi2.Paramete
 		schemaRef := &openapi3.SchemaRef{Value: &openapi3.Schema{
 			Description:     parameter.Description,
 			Type:            typ,
-			Extensions:      stripNonExtensions(parameter.Extensions),
+			Extensions:      stripNonExtensions(extensions),
 			Format:          format,
 			Enum:            parameter.Enum,
 			Min:             parameter.Minimum,
